@@ -14,6 +14,9 @@ m={
  "hooks":{"guard":"verif","enable":"no hook is committed in /repo: checks that need seams (C17 map order, C20 scheduler/race detector) generate an instrumented copy of the current working tree with cmd/vinst and build it with `go build -tags verif -overlay .work/<id>/overlay.json`","baseline_off_cmd":baseline,"source_commits":[],"add_only":True},
  "engines":[
   {"name":"vcheck","path":"cmd/vcheck","serves_properties":sorted(CHECKS),"kind_free_text":"bounded exhaustive enumeration / explicit-state BFS over the real library functions with independent reference models (Go)"},
+  {"name":"explore","path":"engine/explore","serves_properties":["C17","C20"],"kind_free_text":"stateless deviation-bounded DFS over choice points (map iteration orders, thread schedules) with prefix replay"},
+  {"name":"sched","path":"engine/sched","serves_properties":["C20"],"kind_free_text":"cooperative scheduler over sync shims with lock/once/waitgroup model, deadlock detection and vector-clock happens-before race detector"},
+  {"name":"vinst","path":"vinst","serves_properties":["C17","C20"],"kind_free_text":"go/packages + go/ast instrumenter producing a go build overlay (map-order seam, sync seam, access events); nothing is written to /repo"},
  ],
  "checks":[], "not_applicable":[],
  "notes":"All checks: ./run.sh <ID> <tier> rebuilds from /repo's working tree. Exit 0 held, 1 violation, 2 engine/build error."
